@@ -18,8 +18,18 @@ import traceback
 from pathlib import Path
 
 sys.path.insert(0, str(Path(__file__).resolve().parent))
-import common as H  # noqa: E402
-from common import VERIF, COQ, WORK, Case  # noqa: E402
+try:
+    import common as H  # noqa: E402
+    from common import VERIF, COQ, WORK, Case  # noqa: E402
+except Exception:  # the implementation under /repo cannot even be imported: fail closed
+    _V = Path(__file__).resolve().parent.parent
+    _pid = next((a for a in sys.argv[1:] if re.fullmatch(r"C\d+", a)), "C00")
+    (_V / "replays").mkdir(exist_ok=True)
+    _f = _V / "replays" / f"{_pid}-import-error.json"
+    _f.write_text(json.dumps(dict(property=_pid, kind="no-failing-input-found",
+                                  no_longer_checks=["correspondence: nutree from /repo cannot be imported: " + traceback.format_exc()[-1500:]])))
+    print(f"VIOLATION property={_pid} replay={_f} no-failing-input-found")
+    sys.exit(1)
 
 BANNED = re.compile(
     r"\b(Admitted|admit|Axiom|Axioms|Parameter|Parameters|Conjecture|Conjectures|Admit Obligations)\b|Unset Guard|bypass_check|type-in-type|impredicative-set|Unset Universe Checking|Unset Positivity")
@@ -105,9 +115,13 @@ def check_property_file(prop_file: str) -> dict:
 # ---------------------------------------------------------------------------
 def load_known():
     p = VERIF / "known_findings.json"
-    if not p.exists():
-        return []
-    return json.loads(p.read_text())["findings"]
+    out = []
+    if p.exists():
+        out = list(json.loads(p.read_text())["findings"])
+    # per-property fragments written by the property builders before they are folded into known_findings.json
+    for q in sorted((VERIF / "known_findings.d").glob("*.json")) if (VERIF / "known_findings.d").exists() else []:
+        out.extend(json.loads(q.read_text())["findings"])
+    return out
 
 
 def write_replay(prop_id, name, payload) -> Path:
